@@ -104,6 +104,9 @@ def run(idx: Index, rep: Report, tier: str):
     check_bitflip_predicate(idx, rep)
     check_truncation(idx, rep)
     check_clifford_choice(idx, rep)
+    # the tapering products collapse tens of thousands of rows: row counters of the array-form operator hold every row index (shared with C16)
+    from .C16 import check_index_ranges
+    check_index_ranges(idx, rep)
     # trim_trivial_circuit finishes with Circuit.trim_qubits, trim_trivial_operator(reindex=True) renumbers the operator in increasing order: both have to agree
     from .C09 import check_trim_relabelling
     check_trim_relabelling(idx, rep)
